@@ -3,7 +3,7 @@
    [get_components n A] is the statement-by-statement model of bct.get_components on an n x n
    matrix (None = BCTParamError); [path n A u v] = a chain of nonzero entries joins u and v. *)
 From Coq Require Import ZArith List Arith.
-From BCT Require Import Base.Mat Base.ListX Model.Components Proofs.Components.
+From BCT Require Import Base.Mat Base.ListX Model.Components Proofs.Components Model.Distance Proofs.ComponentsDistance.
 Import ListNotations.
 Local Open Scope nat_scope.
 
@@ -17,7 +17,7 @@ Proof. exact union_sets_Inv. Qed.
 Theorem C16_components_iff_path : forall n A comps sizes,
   get_components n A = Some (comps, sizes) ->
   length comps = n /\
-  forall u v, u < n -> v < n -> (nth u comps 0 = nth v comps 0 <-> path n A u v).
+  forall u v, u < n -> v < n -> (nth u comps 0 = nth v comps 0 <-> Components.path n A u v).
 Proof. exact components_iff_path. Qed.
 
 (* the labels in use are exactly 1..m, m = len(comp_sizes) *)
@@ -68,6 +68,13 @@ Theorem C16_agrees_with_distance : forall n A comps sizes (finite : nat -> nat -
   forall u v, u < n -> v < n -> (nth u comps 0 = nth v comps 0 <-> finite u v).
 Proof. exact agrees_with_distance. Qed.
 
+(* ... and for distance_bin the premise is a theorem of C03 (distance_bin_inf_iff, full correctness of
+   the distance_bin model): the labels agree with the finite entries of the distance_bin model *)
+Theorem C16_agrees_with_distance_bin : forall n A comps sizes D,
+  get_components n A = Some (comps, sizes) -> distance_bin n A = Some D ->
+  forall u v, u < n -> v < n -> u <> v -> (nth u comps 0 = nth v comps 0 <-> D u v <> None).
+Proof. exact agrees_with_distance_bin. Qed.
+
 (* non-vacuity: path 0-3-1, isolated node 2, weighted pair 4-5 with a nonzero diagonal entry;
    the edge (0,3) arrives before (1,3), so the item {1,3} has to merge the blocks {0,3} and {1} *)
 Example C16_nonvacuous :
@@ -87,3 +94,4 @@ Print Assumptions C16_asym_rejected.
 Print Assumptions C16_number_of_components_def.
 Print Assumptions C16_number_is_class_count.
 Print Assumptions C16_agrees_with_distance.
+Print Assumptions C16_agrees_with_distance_bin.
